@@ -375,6 +375,8 @@ impl<'a> CompilerState<'a> {
 
     fn parse_expr(&mut self, pairs: Pairs<'a, Rule>) -> Result<Expr, Error> {
         let res = self.parse_expr_ex(pairs)?;
+        #[cfg(feature = "verif_hooks")]
+        crate::verif_hooks::literal_order(res.1.keys().cloned().collect());
 
         // Create collected literal variables in memory
         self.literal_counter += res.1.len();
@@ -540,6 +542,8 @@ impl<'a> CompilerState<'a> {
 
     fn parse_expr_init_value(&mut self, pairs: Pairs<'a, Rule>) -> Result<Expr, Error> {
         let res = self.parse_expr_init_value_ex(pairs)?;
+        #[cfg(feature = "verif_hooks")]
+        crate::verif_hooks::literal_order(res.1.keys().cloned().collect());
 
         // Create collected literal variables in memory
         self.literal_counter += res.1.len();
